@@ -6,6 +6,7 @@ pub mod c06;
 pub mod c15;
 pub mod c16;
 pub mod c19;
+pub mod c20;
 pub mod consist_lab;
 pub mod dispatch_lab;
 pub mod pt_props;
@@ -29,6 +30,7 @@ pub fn get(id: &str) -> Option<Box<dyn Prop>> {
         "C05" => Some(Box::new(dispatch_lab::DispatchProp { which: "C05" })),
         "C15" => Some(Box::new(c15::C15)),
         "C19" => Some(Box::new(c19::C19)),
+        "C20" => Some(Box::new(c20::C20)),
         _ => None,
     }
 }
